@@ -1298,6 +1298,7 @@ func (p *pkgCtx) traceMode() {
 		Func   string `json:"func"`
 		Callee string `json:"callee"`
 		Loc    string `json:"loc"`
+		Text   string `json:"text"`
 	}
 	var exts []extCall
 	for _, f := range p.files {
@@ -1332,7 +1333,7 @@ func (p *pkgCtx) traceMode() {
 					break
 				}
 			}
-			exts = append(exts, extCall{site, p.rep.Package + ":" + fn, fobj.FullName(), p.loc(call)})
+			exts = append(exts, extCall{site, p.rep.Package + ":" + fn, fobj.FullName(), p.loc(call), strings.Join(strings.Fields(p.text(call)), " ")})
 			return true
 		})
 	}
